@@ -15,12 +15,12 @@ PROPS = {
         "trusted_base": [KERNEL, EXTRACT, HARNESSTB, GEN, MD4NOTE, FSNOTE,
                          "modelled, not verified: source-argument -> destination-path mapping across arrangements, file-list walk (covered by the end-to-end oracle only)"],
         "assumptions": [
-            "sync_file_correct covers one file through generator+sender+receiver for sizes < 2^40 under the explicit no_collision hypothesis; the tree level (path mapping, walk, four arrangements) is decided by the end-to-end oracle, not by a theorem (label partial)",
+            "sync_file_correct covers one file through generator+sender+receiver for sizes < 2^40 under the explicit no_collision hypothesis; sync_session_correct lifts it to any file list with distinct names over any destination state (requested files end equal to the source, every other path unchanged); the mapping of source arguments to destination paths and the walk across the arrangements are decided by the end-to-end oracle, not by a theorem (label partial)",
             "oracle: standard rsync mapping of source arguments (dir vs dir/) to destination paths, byte comparison of every selected regular file",
         ],
         "rule": "end to end: random source trees (nesting, names with spaces / non-UTF-8 bytes, sizes 0,1,699..701,1399..1401,4096,7000,64Ki,256Ki-1..256Ki+1 and 0.7-1.3 MiB incl. n*700 and 1000*1000, high/low entropy) x prior destination per file (absent, identical, identical with older mtime, unrelated, edited, emptied, truncated, extended, same-size with unchanged tail, symlink / empty dir / fifo in the way) x 10 option sets x 5 arrangements (pull, push, local, library pull, library push) x source shapes (root, dir/, dir, two sources); every session runs in a worker subprocess. plus the C02 sender/receiver correspondence. non-trivial = session with at least one delta transfer",
         "exhaustive": False,
-        "label": "partial: file-level pipeline is a theorem; tree/path-mapping level by end-to-end oracle",
+        "label": "partial: per-file pipeline and its lift to a whole file list are theorems; argument-to-path mapping and the walk by end-to-end oracle",
     },
     "C09": {
         "components": ["delete"],
